@@ -339,7 +339,21 @@ class FSec(Family):
                     y["data"] = data
                 out.append(y)
             blocks.append(("%s%d" % k, out))
+        # long payloads (more than 4 KiB: a library that splits long inputs over helpers / chunks does so here), all goroutines
+        # at the same time; the case fixes key, COUNT and data, so equal events of different goroutines are judged once
+        for k in sorted(by):
+            if k[0] in ("GetKeyStream", "Zuc"): continue
+            out = []
+            for j in range(2 if wide else 1):
+                y = dict(by[k][0])
+                n = 16448 if (j == 1 and k[0] in ("NEA", "NASEncrypt")) else 4224 + 64 * j
+                y.update(grp=0, seq=0, nbits=8 * n, dpat=2, bearer=(7 * j + 3) % 32, dir=j % 2,
+                         key=[(31 * j + 7 * i + 1) % 256 for i in range(16)], cnt=[0, j, 0x5A, 0xFF - j], data=[(i * 131 + j * 17 + (i >> 8)) % 256 for i in range(n)])
+                out.append(y)
+            blocks.append(("long-%s%d" % k, out))
         return blocks
+
+    dedupe = True      # events are independent of each other: equal lines get equal verdicts
 
     def verdict(self, t):
         if t[5] == "out-of-domain":
